@@ -12,6 +12,7 @@ godebug default=go1.22
 require (
 	github.com/anishathalye/porcupine v1.3.0
 	github.com/goose-lang/goose v0.0.0
+	golang.org/x/sys v0.22.0
 	golang.org/x/tools v0.23.0
 	pgregory.net/rapid v1.3.0
 )
@@ -21,7 +22,6 @@ require (
 	github.com/pkg/errors v0.9.1 // indirect
 	golang.org/x/mod v0.19.0 // indirect
 	golang.org/x/sync v0.7.0 // indirect
-	golang.org/x/sys v0.22.0 // indirect
 )
 
 replace github.com/goose-lang/goose => /repo
